@@ -55,7 +55,8 @@ class ArrayBinopSpec(FunctionSpec):
                 for qa, qb in qpairs:
                     out.append((op, ca, cb, qa, qb))
             for c in ("list", "tuple", "ndarray"):
-                for k in ("float", "int"):
+                # npfloat32: a numpy scalar that is a number without being a python int / float (numpy.int64, float32 ...)
+                for k in ("float", "int", "npfloat32"):
                     for qk in ["simple"] + (["derived1", "empty"] if tier == "thorough" else []):
                         if not (op in ("truediv", "floordiv") and c == "ndarray"):
                             out.append((op, c, k, qk, "empty"))
